@@ -375,3 +375,43 @@ fn check_bank_output(
 
     Ok(())
 }
+
+/// Verification hooks (add-only, compiled only with
+/// `--cfg hlorenzi_customasm_verif`): wrappers around the
+/// otherwise private per-item bank checks.
+#[cfg(hlorenzi_customasm_verif)]
+pub fn verif_check_bank_usage(
+    report: &mut diagn::Report,
+    span: diagn::Span,
+    defs: &asm::ItemDefs,
+    ctx: &asm::ResolverContext)
+    -> Result<(), ()>
+{
+    check_bank_usage(
+        report,
+        span,
+        defs,
+        ctx)
+}
+
+
+#[cfg(hlorenzi_customasm_verif)]
+pub fn verif_check_bank_output(
+    report: &mut diagn::Report,
+    span: diagn::Span,
+    decls: &asm::ItemDecls,
+    defs: &asm::ItemDefs,
+    ctx: &asm::ResolverContext,
+    size: usize,
+    write: bool)
+    -> Result<(), ()>
+{
+    check_bank_output(
+        report,
+        span,
+        decls,
+        defs,
+        ctx,
+        size,
+        write)
+}
